@@ -20,6 +20,9 @@ func init() {
 			ruleJSONValueSpec(c)
 			ruleOmitSpec(c)
 			ruleRejects(c, decodeBound(c.P), nil)
+			ruleSameTag(c)
+			// "fields in any order": a field reader succeeds only after the whole input is scanned (C02-r14-m3)
+			ruleFullScan(c)
 			ruleFieldTag(c)
 			ruleNoSort(c)
 			ruleWireConsts(c)
